@@ -1,6 +1,6 @@
 (* C20 — admission control drops only what the settings say, and only that.
-   Only statements, each closed by [exact]; proofs live in Proofs/Admission.v and Proofs/Antispam.v. *)
-From Verif Require Import Base.Sx Base.GoSem Model.Admission Model.Antispam Proofs.Admission Proofs.Antispam.
+   Only statements, each closed by [exact]; proofs live in Proofs/Admission.v, Proofs/Antispam.v and Proofs/AntispamCov.v. *)
+From Verif Require Import Base.Sx Base.GoSem Model.Admission Model.Antispam Proofs.Admission Proofs.Antispam Proofs.AntispamCov.
 
 (* ---- checkInputBytes ------------------------------------------------------------------------ *)
 
@@ -172,6 +172,88 @@ Theorem c20_sources_independent :
 Proof. exact sources_independent. Qed.
 Print Assumptions c20_sources_independent.
 
+(* ---- the last stage of In: the input's PassEvent ("recognised by its input as already committed") ---- *)
+
+(* the input refuses an event exactly when the rest of In let it through (c20_in_refuse_iff says when that is), streams
+   are enabled and PassEvent answered false *)
+Theorem c20_in_refused_by_input_iff :
+  forall c cri decode_ok spam cur soff b streams_on pass,
+    pipeline_in3 c cri decode_ok spam cur soff b streams_on pass = RefusedByInput <->
+    ((exists d mark, pipeline_in c cri decode_ok spam cur soff b = Delivered d mark) /\ streams_on = true /\ pass = false).
+Proof. exact in3_refused_by_input_iff. Qed.
+Print Assumptions c20_in_refused_by_input_iff.
+
+(* with DisableStreams, or an input that passes the event, nothing is added to the chain of c20_in_refuse_iff *)
+Theorem c20_in_input_pass_or_streams_off :
+  forall c cri decode_ok spam cur soff b streams_on pass,
+    streams_on = false \/ pass = true ->
+    pipeline_in3 c cri decode_ok spam cur soff b streams_on pass = R3 (pipeline_in c cri decode_ok spam cur soff b).
+Proof. exact in3_pass_is_in. Qed.
+Print Assumptions c20_in_input_pass_or_streams_off.
+
+Theorem c20_in_refusal_independent_of_input :
+  forall c cri decode_ok spam cur soff b streams_on pass w,
+    pipeline_in c cri decode_ok spam cur soff b = Refused w ->
+    pipeline_in3 c cri decode_ok spam cur soff b streams_on pass = R3 (Refused w).
+Proof. exact in3_refusal_independent_of_input. Qed.
+Print Assumptions c20_in_refusal_independent_of_input.
+
+(* the antispam counted the event before the input was asked: its state does not depend on the answer *)
+Theorem c20_in_antispam_state_independent_of_input :
+  forall pc streams_on meta_on nsrc ms id isNew cur soff hdr b valid pass1 pass2 meta,
+    fst (pstep6 pc streams_on meta_on nsrc ms (P6In id isNew cur soff hdr b valid pass1 meta)) =
+    fst (pstep6 pc streams_on meta_on nsrc ms (P6In id isNew cur soff hdr b valid pass2 meta)).
+Proof. exact pstep6_state_independent_of_pass. Qed.
+Print Assumptions c20_in_antispam_state_independent_of_input.
+
+(* source_name_meta_field: events that carry the field share the entry of the meta value, whatever their source id, and
+   are never the "first event of a new source"; the others keep the entry of their source id *)
+Theorem c20_source_key_meta :
+  forall nsrc id1 id2 isNew1 isNew2 meta,
+    0 <= meta -> source_key true nsrc id1 isNew1 meta = source_key true nsrc id2 isNew2 meta /\
+                 snd (source_key true nsrc id1 isNew1 meta) = false /\
+                 (nsrc <= fst (source_key true nsrc id1 isNew1 meta))%nat.
+Proof. exact source_key_meta. Qed.
+Print Assumptions c20_source_key_meta.
+
+Theorem c20_source_key_plain :
+  forall meta_on nsrc id isNew meta,
+    meta_on = false \/ meta < 0 -> source_key meta_on nsrc id isNew meta = (id, isNew).
+Proof. exact source_key_plain. Qed.
+Print Assumptions c20_source_key_plain.
+
+(* ---- the counter is an int32 in the code, an unbounded integer in the theorems above --------------------------
+   On every run of IsSpam calls (all counted against T) and Maintenance rounds that starts with room for its length
+   below MaxInt32, the model with a wrapping Inc and the clamped ban value (clampInt32) computes the same verdicts and
+   the same state as the unbounded one; from the empty state: every run of at most 2^31 - 1 - U*T ops. *)
+Theorem c20_int32_run_exact :
+  forall MI U T ops s,
+    0 < T -> 0 <= U -> forallb (uniform_op T) ops = true -> wf T s ->
+    Z.max (counter_of s) (U * T) + Z.of_nat (length ops) <= MAX32 ->
+    arun32 MI U s ops = arun MI U s ops.
+Proof. exact arun32_exact. Qed.
+Print Assumptions c20_int32_run_exact.
+
+Theorem c20_int32_run_exact_fresh :
+  forall MI U T ops,
+    0 < T -> 0 <= U -> forallb (uniform_op T) ops = true ->
+    U * T + Z.of_nat (length ops) <= MAX32 ->
+    arun32 MI U None ops = arun MI U None ops.
+Proof. exact arun32_exact_fresh. Qed.
+Print Assumptions c20_int32_run_exact_fresh.
+
+Theorem c20_int32_step_exact :
+  forall MI U T s isNew t,
+    0 < T -> 0 <= U -> U * T <= MAX32 -> wf T s -> counter_of s < MAX32 ->
+    count_step32 MI U T s isNew t = count_step MI U T s isNew t.
+Proof. exact count_step32_exact. Qed.
+Print Assumptions c20_int32_step_exact.
+
+Theorem c20_int32_round_exact :
+  forall U T s, 0 < T -> 0 <= U -> wf T s -> counter_of s <= MAX32 -> maint_step32 U s = maint_step U s.
+Proof. exact maint_step32_exact. Qed.
+Print Assumptions c20_int32_round_exact.
+
 (* ---- non-vacuity ------------------------------------------------------------------------------ *)
 (* cut with and without newline, identity at the limit, refusals *)
 Example c20_admit_nonvacuous :
@@ -206,4 +288,23 @@ Proof. vm_compute. repeat split. Qed.
 Example c20_exception_nonvacuous :
   resolve 0 None [false; true] = Pass /\ resolve 0 None [false; false] = Block /\
   resolve 7 (Some [(false, 0); (true, 3)]) [true] = Count 3.
+Proof. vm_compute. repeat split. Qed.
+
+(* the input's refusal: a record that everything else lets through is refused iff streams are on and PassEvent says no *)
+Example c20_input_refusal_nonvacuous :
+  let c := {| max_size := 0; cut_on := false; mark_on := false; as_thr := -1; is_cri := false |} in
+  let run := fun streams pass => pipeline_in3 c (fun _ => Some false) (fun _ => true) (fun _ => false) 0 0 [97;10]%N streams pass in
+  run true false = RefusedByInput /\ run false false = R3 (Delivered [97;10]%N false) /\
+  run true true = R3 (Delivered [97;10]%N false).
+Proof. vm_compute. repeat split. Qed.
+
+(* outside the range of c20_int32_run_exact the int32 model (and the code: stream antispam-int32-clamp) leaves the
+   unbounded one: T = 3, U = 2^30 - the ban value is clamped to MaxInt32 and the next quick event wraps the counter *)
+Example c20_int32_clamp_nonvacuous :
+  let U := 1073741824 in
+  let ban := repeat (Ev (Count 3) false 0) 3 in
+  counter_of (fst (arun32 2 U None ban)) = MAX32 /\
+  snd (arun32 2 U None (ban ++ [Ev (Count 3) false 0])) = [false; false; true; false] /\
+  snd (arun 2 U None (ban ++ [Ev (Count 3) false 0])) = [false; false; true; true] /\
+  arun32 2 4 None (ban ++ [Ev (Count 3) false 0; Maint]) = arun 2 4 None (ban ++ [Ev (Count 3) false 0; Maint]).
 Proof. vm_compute. repeat split. Qed.
